@@ -81,3 +81,21 @@ pub fn note_thread_stack_depth(depth: usize) {
 pub fn thread_stack_depth() -> usize {
     THREAD_STACK_DEPTH.with(std::cell::Cell::get)
 }
+
+/// Signature of a pause hook: called with the label of the pause point.
+pub type PauseHook = fn(label: &'static str);
+
+static PAUSE_HOOK: std::sync::Mutex<Option<PauseHook>> = std::sync::Mutex::new(None);
+
+/// Install (or remove) the pause hook used to force particular interleavings.
+pub fn set_pause_hook(hook: Option<PauseHook>) {
+    *PAUSE_HOOK.lock().expect("verif pause hook poisoned") = hook;
+}
+
+/// A pause point: a no-op unless a pause hook is installed.
+pub fn pause(label: &'static str) {
+    let hook = *PAUSE_HOOK.lock().expect("verif pause hook poisoned");
+    if let Some(f) = hook {
+        f(label);
+    }
+}
